@@ -16,6 +16,7 @@ def run(ck):
     q = ck.tier == "quick"
     tids = gen.Tids()
     progs = conj.programs(ck.seed, 150 if q else 3000, tids=tids)
+    progs += conj.product_programs(ck.seed, 60 if q else 1200, tids=tids)
     progs += network.norm_programs(ck.seed, 60 if q else 1000, tids=tids)
     ck.cov["rule"] = ("random fermionic arrays (every dual pattern incl. all-ket, even/odd with ket and bra labels, pending signs, "
                       "real/complex): conj/dagger for both settings of the dual-leg option against the word semantics, <x|x> in both "
